@@ -137,6 +137,36 @@ def offsetPolygon (c : OffCfg) (path : Array Point64) : List Point64 :=
       let (pts, k') := offsetPoint c path normals i st.2
       (st.1 ++ pts, k')) ([], path.size - 1)).1
 
+/-- `offsetPolygon` with given normals (shared with the open-path code) -/
+def offsetRing (c : OffCfg) (path : Array Point64) (normals : Array PointD) : List Point64 :=
+  ((List.range path.size).foldl (fun (st : List Point64 × Nat) i =>
+      let (pts, k') := offsetPoint c path normals i st.2
+      (st.1 ++ pts, k')) ([], path.size - 1)).1
+
+/-- `offsetOpenJoined`: the path as a ring, then the reversed path as a ring (two raw rings) -/
+def offsetOpenJoined (c : OffCfg) (path : Array Point64) : List (List Point64) :=
+  let r := path.reverse
+  [offsetRing c path (buildNormals path), offsetRing c r (buildNormals r)]
+
+/-- `offsetOpenPath` as the code runs it: the local `delta` that guards the end caps is never assigned, so
+    each end contributes its own point instead of a Butt / Square / Round cap (known finding
+    site:open-path-end-cap); forward pass over the interior vertices, normals reversed, backward pass -/
+def offsetOpenPath (c : OffCfg) (path : Array Point64) : List Point64 :=
+  if path.size == 0 then [] else
+  let highI := path.size - 1
+  let normals := buildNormals path
+  let fwd := ((List.range' 1 (highI - 1)).foldl (fun (st : List Point64 × Nat) i =>
+      let (pts, k') := offsetPoint c path normals i st.2
+      (st.1 ++ pts, k')) ([path[0]!], 0))
+  -- `for i := highI; i > 0; i-- { normals[i] = -normals[i-1] }; normals[0] = normals[highI]`
+  let neg (p : PointD) : PointD := ⟨-p.X, -p.Y⟩
+  let n1 : Array PointD := (Array.range path.size).map fun i => if i == 0 then normals[0]! else neg normals[i - 1]!
+  let n2 := n1.set! 0 n1[highI]!
+  let back := ((List.range' 1 (highI - 1)).reverse.foldl (fun (st : List Point64 × Nat) i =>
+      let (pts, k') := offsetPoint c path n2 i st.2
+      (st.1 ++ pts, k')) (fwd.1 ++ [path[highI]!], highI))
+  back.1
+
 def mitLimSqrOf (miterLimit : Float) : Float :=
   let ml := if miterLimit == 0.0 then 2.0 else miterLimit
   if ml <= 1.0 then 2.0 else 2.0 / (ml * ml)
